@@ -104,7 +104,7 @@ def dyadic_curve(rng, n, family=None, scale_exp=None):
         mn = min(y)
         y = [v - mn for v in y]
     if scale_exp is None:
-        scale_exp = rng.choice([0, 0, 0, 0, -20, 20, 40]) if rng.random() < 0.15 else 0
+        scale_exp = rng.choice([0, 0, 0, -20, 20, 40, -55, -60]) if rng.random() < 0.2 else 0
     sc = 2.0 ** scale_exp
     pts = np.array([[float(a), float(b) * sc] for a, b in zip(x, y)], dtype=float)
     return pts, family
